@@ -1,3 +1,4 @@
+pub mod aml;
 pub mod engine;
 pub mod props;
 pub mod tables;
